@@ -84,6 +84,50 @@ def subsets_workload(res, ctx, rng):
         res.count(f'subset_size_{min(len(subset), 3) if len(subset) < 31 else "all"}')
 
 
+def boundary_workload(res, ctx, rng):
+    """Values at the edges of their ranges, zeros where code might test truthiness, empty lists versus missing keys."""
+    strings = logs.Strings(rng)
+    empty = strings.idx('')
+    for sec in (0, 1, (1 << 31) - 1, 86399, 1600000000):
+        for usec in (0, 1, 499999, 500000, 999999):
+            raw = logs.gen_event(rng, strings, ())
+            raw['ud'] = {'sec': sec, 'usec': usec}
+            res.case(('ud', sec, usec))
+            decode(res, raw, strings.inverted(), f'unix date sec={sec} usec={usec}')
+            res.count('boundary_records')
+    zero_like = {'sio': 0, 'ttl': 0, 'pid': 0, 'aid': 0, 'paid': 0, 'tai': 0, 'cai': 0, 'cpui': 0, 'si': 0, 'st': 0, 'ss': 0,
+                 'lsmct': 0, 'lemct': 0, 'lt': 0, 'siu': b'', 'bt': [], 'lsud': {}, 'leud': {}, 'ti': 0,
+                 'p': empty, 'sub': empty, 'cat': empty, 'f': empty, 'sn': empty, 'pip': empty, 'send': empty, 'sip': empty,
+                 'lc': {'c': 0, 's': 0}, 'lsutz': {'mw': 0, 'dt': 0}, 'leutz': {'mw': 0, 'dt': 0},
+                 'dm': {'pc': 0, 's': 0}}
+    for k, v in zero_like.items():
+        raw = logs.gen_event(rng, strings, ())
+        raw[k] = v
+        res.case(('zero', k))
+        decode(res, raw, strings.inverted(), f'optional key {k} present with a zero / empty value')
+        res.count('boundary_records')
+    raw = logs.gen_event(rng, strings, ())
+    raw.update(zero_like)
+    raw['tid'] = 0
+    raw['mct'] = 0
+    raw['ns'] = 0
+    decode(res, raw, strings.inverted(), 'every optional key present with a zero / empty value')
+    for big in ((1 << 31) - 1, 1 << 31, (1 << 32) - 1, 1 << 32, (1 << 63) - 1):
+        raw = logs.gen_event(rng, strings, ())
+        for k in ('sio', 'ttl', 'pid', 'aid', 'paid', 'tai', 'cai', 'cpui', 'si', 'lsmct', 'lemct', 'mct', 'ns', 'tid'):
+            raw[k] = big
+        res.case(('big', big))
+        decode(res, raw, strings.inverted(), f'integer fields at {hex(big)}')
+        res.count('boundary_records')
+    for seg in ({'p': {'w': 0, 'p': 0, 't': []}}, {'p': {'w': 0, 'p': 0}}, {'a': {'a': 0, 'c': 0, 'or': 0}}, {'a': {'a': 3, 'c': 2, 'or': empty}},
+                {'a': {'c': 1, 'sc': 0, 'st': 0}}, {'lp': empty}, {}):
+        raw = logs.gen_event(rng, strings, ())
+        raw['dm'] = {'pc': 1, 's': 0, 'seg': [seg]}
+        res.case(('seg', repr(seg)))
+        decode(res, raw, strings.inverted(), f'segment {seg}')
+        res.count('boundary_records')
+
+
 def dm_workload(res, ctx, rng):
     strings = logs.Strings(rng)
     for full in (True, False):
@@ -232,6 +276,8 @@ def run(ctx):
     res = core.Result()
     rng = ctx.rng
     subsets_workload(res, ctx, rng)
+    if ctx.shard == 0:
+        boundary_workload(res, ctx, rng)
     dm_workload(res, ctx, rng)
     ti_workload(res, ctx, rng)
     alias_workload(res, ctx, rng)
